@@ -8,7 +8,9 @@ over mocktikv behind a wrapping tikv.Client / pd.Client) vs the extracted model 
   * part : recorded sub-ranges vs partition oracle (consecutive, exact cover) and vs the model's partition
            fed with the layouts PD returned; injected handler failure => task failure.
   * del  : DeleteRangeTask vs map model; request pieces form an exact cover, clipped to their regions.
-  * vis  : CheckVisibility / snapshot Get / BatchGet / Scan below / at / above the cached txn safe point."""
+  * vis  : CheckVisibility / snapshot Get / BatchGet / Scan below / at / above the cached txn safe point.
+  * vist : the txn safe point learned before the send / while the response is in flight / after the call, per access path
+           and per batch of forward / reverse scans: refused exactly when cached > ts at a post-response check (run_read)."""
 import os, time, json, tempfile, collections, hashlib
 import vlib
 from vlib import Verdict
@@ -523,6 +525,69 @@ def do_vis(cx, res):
     cx.samples.setdefault("vis", {"cached": cached, "stale": stale, "reads": (res.get("vis") or [])[:6]})
 
 
+def do_vist(cx, res):
+    """safe point learned at a chosen instant of a read: the code must check AFTER the response (C14_visibility_schedule)"""
+    c = res["case"]; qid = "t%d" % c["id"]
+    path, ts, cached = c["path"], c["ts"], c.get("cached", 0)
+    cx.stats["vist:" + path] += 1
+    evs = res.get("events") or []
+    mev, cur, refused_at, served, pairs_served = [], cached, None, 0, 0
+    per_batch = path in ("scan", "rscan")
+
+    def check():
+        nonlocal refused_at, served
+        mev.append("C")
+        if refused_at is None:
+            if ts < cur:
+                refused_at = len(mev)
+            else:
+                served += 1
+    for ev in evs:
+        if ev["t"] == "update" and ev.get("s") != "after_call":
+            cur = ev["sp"]; mev.append("U" + hexn(cur))
+        elif ev["t"] == "send":
+            mev.append("S")
+        elif ev["t"] == "response" and not ev.get("err") and per_batch:
+            was = refused_at
+            check()
+            if was is None and refused_at is None:
+                pairs_served += ev.get("pairs", 0)
+    if not per_batch:
+        check()
+    for ev in evs:
+        if ev["t"] == "update" and ev.get("s") == "after_call":
+            cur = ev["sp"]; mev.append("U" + hexn(cur))
+    got = res["vis"][0]["res"]
+    exp = "gc" if refused_at is not None else "ok"
+    inst = sorted(set(ev.get("s") for ev in evs if ev["t"] == "update"))
+    cx.oracle(got == exp, res, "C14_visibility_schedule(refused exactly when the cached safe point exceeds ts at response time)",
+              "%s read at ts %d: got %s, expected %s; schedule %s" % (path, ts, got, exp, ",".join(mev)))
+    entries = res.get("locks_after") or []
+    vals = {o["key"]: o["val"] for o in c["script"] if o["op"] == "prewrite"}
+    allk = sorted(vals, key=kb)
+    if per_batch:
+        want = [k + "=" + vals[k] for k in (allk if path == "scan" else allk[::-1])]
+        if exp == "ok":
+            cx.oracle(entries == want, res, "C14_visibility_schedule(served read returns the data)", "%s vs %s" % (entries, want))
+        else:
+            cx.oracle(entries == want[:pairs_served] or got != "gc", res, "C14_visibility_schedule(batches before the refused one are served, nothing after)",
+                      "%d entries returned, %d pairs in the batches served" % (len(entries), pairs_served))
+    elif exp == "ok" and got == "ok":
+        want = sorted(k + "=" + vals[k] for k in c["keys"])
+        cx.oracle(sorted(entries) == want, res, "C14_visibility_schedule(served read returns the data)", "%s vs %s" % (entries, want))
+    later = res["vis"][1]["res"] if len(res["vis"]) > 1 else None
+    cx.oracle((later == "gc") == (ts < cur), res, "C14_visibility(a later read sees the safe point learned after the call)", "later get: %s, cached %d, ts %d" % (later, cur, ts))
+    cx.sigs.add(("vist", path, tuple(inst), exp, served if per_batch else 0, c.get("batch_size") if per_batch else 0))
+    cx.samples.setdefault("vist-" + path, {"case": {k: v for k, v in c.items() if k != "script"}, "schedule": mev, "verdict": got, "entries": len(entries)})
+    for i in inst:
+        cx.stats["vist-instant:%s:%s" % (i, exp)] += 1
+
+    def cb(f):
+        if f[0] != got or (per_batch and got == "gc" and int(f[1]) != served):
+            cx.mismatch(res, "snapshot %s under a safe-point schedule vs RangeTask.run_read" % path, {"verdict": got, "batches_served": served, "schedule": mev}, f)
+    cx.ask(qid, "\t".join(["visrun", qid, hexn(cached), hexn(ts), ",".join(mev)]), cb)
+
+
 def main(tier, replay):
     t0 = time.time()
     v = Verdict(PID)
@@ -571,7 +636,7 @@ def main(tier, replay):
             for r in results:
                 if r.get("setup_err"):
                     continue
-                {"gc": do_gc, "part": do_part, "del": do_del, "vis": do_vis}[r["case"]["kind"]](cx, r)
+                {"gc": do_gc, "part": do_part, "del": do_del, "vis": do_vis, "vist": do_vist}[r["case"]["kind"]](cx, r)
             if len(setup_errs) > len(results) // 20:
                 v.violation({"kind": "harness", "correspondence": "population scripts rejected by the mock", "error": [r["setup_err"] for r in setup_errs[:3]]}, has_input=False)
             cx.stats["setup-errors"] = len(setup_errs)
@@ -617,7 +682,7 @@ def main(tier, replay):
         if cx.stats.get("gc:wf-hypotheses-fail"):
             v.violation({"kind": "harness", "correspondence": "generated lock populations violate the theorems' well-formedness hypotheses", "error": cx.stats["gc:wf-hypotheses-fail"]}, has_input=False)
     cov.update(evaluations=len(results) + cx.oracle_evals, distinct_nontrivial=len(cx.sigs),
-               rule="seeded generators (see docs/C14.md): unistore tier (driver gcuni): async-commit leftovers (primary locked; secondaries in 1-5 regions all locked / never prewritten / rolled back / already committed; primary gone), 2PC and pessimistic leftovers, forced order of CheckSecondaryLocks answers, splits during the scan, 2-7 workers, PrimaryMismatch population; mocktikv tier: gc populations over keys of 1-3 bytes from {a..h} with 0-5 initial splits (boundaries on data keys included), 2-14 transactions in states committed/rolled-back/pending/pending-without-primary/pessimistic(pending, mixed, committed) + finished history, safe point around the start timestamps, scan limit 1-4 (1024 for the GCResolveLockPhase/GC modes), 1-8 workers, 1-3 regions per task, sub-ranges, splits injected before the i-th ScanLock/ResolveLock; partition cases with PD-level splits and injected handler failures; delete-range cases incl. notify-only and splits before the i-th DeleteRange; visibility cases below/at/above the cached safe point incl. a stale cache. distinct_nontrivial = distinct case specs that are non-trivial: gc with >=1 old lock in the range, partition with >=2 sub-ranges, delete with >=1 deleted key or >=2 requests, visibility (cached, stale, below/at/above, api) classes",
+               rule="seeded generators (see docs/C14.md): unistore tier (driver gcuni): async-commit leftovers (primary locked; secondaries in 1-5 regions all locked / never prewritten / rolled back / already committed; primary gone), 2PC and pessimistic leftovers, forced order of CheckSecondaryLocks answers, splits during the scan, 2-7 workers, PrimaryMismatch population; mocktikv tier: gc populations over keys of 1-3 bytes from {a..h} with 0-5 initial splits (boundaries on data keys included), 2-14 transactions in states committed/rolled-back/pending/pending-without-primary/pessimistic(pending, mixed, committed) + finished history, safe point around the start timestamps, scan limit 1-4 (1024 for the GCResolveLockPhase/GC modes), 1-8 workers, 1-3 regions per task, sub-ranges, splits injected before the i-th ScanLock/ResolveLock; partition cases with PD-level splits and injected handler failures; delete-range cases incl. notify-only and splits before the i-th DeleteRange; visibility cases below/at/above the cached safe point incl. a stale cache; vist: safe-point updates injected before the send / after the inner call returned / after the API call at the i-th Get/BatchGet/Scan RPC (scan batch size 1-3, forward and reverse). distinct_nontrivial = distinct case specs that are non-trivial: gc with >=1 old lock in the range, partition with >=2 sub-ranges, delete with >=1 deleted key or >=2 requests, visibility (cached, stale, below/at/above, api) classes",
                samples=list(cx.samples.values()), traces_validated_against_impl=cx.stats.get("gc:trace-validated", 0),
                input_distribution=dict(cx.stats), model_queries=len(cx.queries), model_mismatches=cx.mismatches,
                oracle_evaluations=cx.oracle_evals, oracle_failures=len(oracle_fail),
